@@ -60,6 +60,7 @@ Section OperandInd.
   Hypothesis HConst : forall b, P (OConst b).
   Hypothesis HNot : forall o, P o -> P (ONot o).
   Hypothesis HBool : forall a vs, Forall P vs -> P (OBool a vs).
+  Hypothesis HChain : forall t0 ls, P (OChain t0 ls).
   Fixpoint operand_ind' (o : operand) : P o :=
     match o with
     | OCmp k op c fl => HCmp k op c fl
@@ -72,6 +73,7 @@ Section OperandInd.
                        | [] => Forall_nil P
                        | x :: t => Forall_cons x (operand_ind' x) (go t)
                        end) vs)
+    | OChain t0 ls => HChain t0 ls
     end.
 End OperandInd.
 
@@ -134,10 +136,25 @@ Proof.
   intros a1 v1 a2 v2. reflexivity.
 Qed.
 
+Lemma cterm_eqb_eq : forall a b, cterm_eqb a b = true -> a = b.
+Proof.
+  intros [x|x] [y|y] H; try discriminate; cbn in H.
+  - apply Nat.eqb_eq in H. subst. reflexivity.
+  - apply Z.eqb_eq in H. subst. reflexivity.
+Qed.
+
+Lemma links_eqb_eq : forall a b, links_eqb a b = true -> a = b.
+Proof.
+  induction a as [|[o1 t1] a' IH]; intros [|[o2 t2] b'] H; try discriminate; [reflexivity|].
+  cbn in H. apply andb_true_iff in H. destruct H as [H Hl].
+  apply andb_true_iff in H. destruct H as [Ho Ht].
+  apply bop_eqb_eq in Ho. apply cterm_eqb_eq in Ht. apply IH in Hl. subst. reflexivity.
+Qed.
+
 Lemma operand_eqb_eq : forall a b, operand_eqb a b = true -> a = b.
 Proof.
-  intros a. induction a as [k op c fl | i | x | o IH | a1 v1 IH] using operand_ind'; intros b H.
-  - destruct b as [k2 op2 c2 fl2 | | | |]; try discriminate. cbn in H.
+  intros a. induction a as [k op c fl | i | x | o IH | a1 v1 IH | t0 ls] using operand_ind'; intros b H.
+  - destruct b as [k2 op2 c2 fl2 | | | | |]; try discriminate. cbn in H.
     apply andb_true_iff in H. destruct H as [H Hf].
     apply andb_true_iff in H. destruct H as [H Hc].
     apply andb_true_iff in H. destruct H as [Hk Ho].
@@ -146,12 +163,15 @@ Proof.
   - destruct b; try discriminate. cbn in H. apply Nat.eqb_eq in H. subst. reflexivity.
   - destruct b; try discriminate. cbn in H. apply eqb_prop in H. subst. reflexivity.
   - destruct b; try discriminate. cbn in H. f_equal. apply IH. exact H.
-  - destruct b as [| | | | a2 v2]; try discriminate. rewrite operand_eqb_OBool in H.
+  - destruct b as [| | | | a2 v2 |]; try discriminate. rewrite operand_eqb_OBool in H.
     apply andb_true_iff in H. destruct H as [Ha Hv]. apply eqb_prop in Ha. subst a2. f_equal.
     revert v2 Hv. induction IH as [| x t1 Hx Ht IHt]; intros v2 Hv; destruct v2 as [| y t2];
       try discriminate; try reflexivity.
     cbn in Hv. apply andb_true_iff in Hv. destruct Hv as [Hxy Htt].
     f_equal; [apply Hx; exact Hxy | apply IHt; exact Htt].
+  - destruct b as [| | | | | t2 l2]; try discriminate. cbn in H.
+    apply andb_true_iff in H. destruct H as [Ht Hl].
+    apply cterm_eqb_eq in Ht. apply links_eqb_eq in Hl. subst. reflexivity.
 Qed.
 
 (* ---------- opposite expressions ---------- *)
@@ -163,7 +183,7 @@ Proof.
   assert (H' : existsb (fun w => match w with ONot w' => operand_eqb w' v | _ => false end) vs = true).
   { destruct v; try exact H; discriminate. }
   clear H. apply existsb_exists in H'. destruct H' as [w [Hw H]].
-  destruct w as [| | | w' |]; try discriminate.
+  destruct w as [| | | w' | |]; try discriminate.
   apply operand_eqb_eq in H. subst w'.
   destruct (eval rho sigma v) eqn:Ev.
   - destruct isand.
@@ -223,7 +243,7 @@ Proof. intros op x c. destruct op; cbn; lia. Qed.
 Lemma atom_of_spec : forall d v a, In a (atom_of d v) ->
   exists k op c fl, v = OCmp k op c fl /\ a = mkAtom k (if fl then opposite op else op) c d.
 Proof.
-  intros d v a H. destruct v as [k op c fl | | | |]; cbn in H; try contradiction.
+  intros d v a H. destruct v as [k op c fl | | | | |]; cbn in H; try contradiction.
   destruct H as [H | []]. exists k, op, c, fl. split; [reflexivity | symmetry; exact H].
 Qed.
 
@@ -255,7 +275,7 @@ Lemma nested_sem : forall rho sigma isand o a, In a (nested_atoms isand o) ->
   a_didx a = None /\ (eval rho sigma o = isand -> atom_sem rho a = isand).
 Proof.
   intros rho sigma isand o.
-  induction o as [k op c fl | i | x | o IH | a0 vs IH] using operand_ind'; intros a Ha;
+  induction o as [k op c fl | i | x | o IH | a0 vs IH | t0 ls] using operand_ind'; intros a Ha;
     try (cbn in Ha; contradiction).
   rewrite nested_atoms_OBool in Ha. destruct (Bool.eqb a0 isand) eqn:E; [|contradiction].
   apply eqb_prop in E. subst a0.
